@@ -107,6 +107,9 @@ func judgeOracles(o fsOpts, hist *h.History, m []h.ModelStep, res *result) {
 		for _, p := range o.oracles {
 			res.OracleChecks[p]++
 		}
+		if has(o.oracles, "C10") && (st.Res == "stuck" || st.LateWedge) {
+			st.OracleMsgs = append(st.OracleMsgs, fmt.Sprintf("C10\x00%s never returned or left the drive locked for every later call", st.Call.Method))
+		}
 		if has(o.oracles, "C02") && i < len(m) {
 			if msg := judgeC02(st, m[i]); msg != "" {
 				st.OracleMsgs = append(st.OracleMsgs, "C02\x00"+msg)
